@@ -53,11 +53,16 @@ def make_classes():
     from pamiq_core.trainer import Trainer
 
     class VInf(InferenceModel):
+        falsy = False
+
         def __init__(self, oid: int, version: int) -> None:
             self.oid, self.version = oid, version
 
         def infer(self):
             return self.version
+
+        def __bool__(self) -> bool:
+            return not self.falsy
 
     class VModel(TrainingModel):
         def __init__(self, rec: Rec, name: str, has_inf: bool, inf_only: bool, version: int):
@@ -68,7 +73,11 @@ def make_classes():
             oid = self.rec.n_obj
             self.rec.n_obj += 1
             self.rec.ev("create", self.name, oid)
-            return VInf(oid, self.version)        # a new inference model starts as a copy
+            inf = VInf(oid, self.version)         # a new inference model starts as a copy
+            # user inference models may well be falsy containers (an empty table, `__len__` == 0):
+            # every second one is, so that truthiness is never mistaken for presence
+            inf.falsy = (oid % 2 == 0)
+            return inf
 
         def forward(self):
             return self.version
